@@ -1,3 +1,4 @@
 //! Reference models: plain Rust, no nom, nothing shared with the crate under test.
 pub mod states;
 pub mod iana;
+pub mod ciphers;
